@@ -2810,11 +2810,11 @@ theorem C17_w9_blank : ∀ k : Str, k.all C17_w9Env.cs.uws = true → C17_w9Env.
 example : C17_w9Env.ext.has Gen.EXT_INLINE_QUANTITIES = true := by decide
 example : findInlineQuantity (α := Rat) C17_w9Env 14 [] ("take ".toList ++ "  ".toList ++ "2 cups".toList) = none :=
   C17_inline_scan_blank_insertion C17_w9Env C17_w9_digits C17_w9_blank "take ".toList "  ".toList "2 cups".toList
-    (by decide) (Or.inr (Or.inr ⟨"take".toList, ' ', by decide, by decide⟩)) (by decide +kernel)
+    (by decide) (Or.inr (Or.inr ⟨"take".toList, ' ', by decide, by decide⟩)) (by decide)
 example : findInlineQuantity (α := Rat) C17_w9Env 9 [] ("take 2".toList ++ "  ".toList ++ []) = none :=
   C17_inline_scan_blank_insertion C17_w9Env C17_w9_digits C17_w9_blank "take 2".toList "  ".toList []
-    (by decide) (Or.inl rfl) (by decide +kernel)
-example : (findInlineQuantity (α := Rat) C17_w9Env 9 [] "take 2 g".toList).isSome = true := by decide +kernel
+    (by decide) (Or.inl rfl) (by decide)
+example : (findInlineQuantity (α := Rat) C17_w9Env 9 [] "take 2 g".toList).isSome = true := by decide
 
 /-- **The extension condition of a text run (`SegX.extOK`: under INLINE_QUANTITIES the run shows something and
     the scan finds nothing in it) is inherited when filler showing only white space is inserted next to white
@@ -2837,7 +2837,7 @@ example : (SegX.text ([tk .word "take".toList, tk .ws [' ']] ++ [tk .blockCommen
     [tk .int ['2'], tk .ws [' '], tk .word "cups".toList])).extOK Rat C17_w9Env :=
   C17_text_run_ext_after_filler C17_w9Env C17_w9_digits C17_w9_blank _ _ _ (by decide)
     (Or.inr (Or.inr ⟨"take".toList, ' ', by decide, by decide⟩))
-    (fun _ => ⟨by decide, by decide +kernel⟩)
+    (fun _ => ⟨by decide, by decide⟩)
 
 /-- **`DocWF` of the transformed document from `DocWF` of the original, EVERY extension set** (obstacle (i)
     closed: `hext` of `C17_insertion_in_text_wellformed_no_fence_partial` derived).  Filler `F` showing only white
